@@ -15,7 +15,7 @@ EXPLANATION = ('Effect analysis (REACH) over the LLVM-IR call graph of a driver 
                'policy keeps frames off the heap after warm-up (learned size = needed size). The claim is relative to the boundary list.')
 ASSUMPTIONS = ['at -O0 clang emits a call for every source-level call (no inlining)', 'libstdc++ atomics / futex waits do not allocate', 'user coroutine frames are the user\'s allocations']
 
-ENT = re.compile(r'cocls::(future_common|future<|promise<|awaiter::|co_awaiter<|sync_awaiter|malleable_awaiter|call_fn_awaiter|mutex::|suspend_point<|async<[^>]*>::co_awaiter|generator<|generator_iterator)')
+ENT = re.compile(r'cocls::(future_common|future<|promise<|awaiter::|co_awaiter<|sync_awaiter|malleable_awaiter|call_fn_awaiter|mutex::|suspend_point<|async<[^>]*>::co_awaiter|generator<|generator_iterator|callback_await_alloc<|_details::callback_await_coro<|await_result<)')
 ALLOWED_ALLOC = re.compile(r'cocls::suspend_point<void>::add\b')
 
 
@@ -83,14 +83,14 @@ def reach_rule(ctx, db, flags):
         raise Broken('the growth path of suspend_point<void>::add is not in the reached set: the driver or the entry set lost coverage')
     ctx.ob(rid, 'IR:core entry set', src, not bad, '%d entry functions, %d functions reached, allocation sites reached: %s' % (len(entries), len(seen), sorted({mod.head(x)[:60] for x in sites})),
            desc='allocation reachable from the core entry set')
-    ind = sorted((mod.head(n)[:90], mod.defs[n]['ind']) for n in seen if mod.defs[n]['ind'])
+    ind = sorted((mod.head(n)[:400], mod.defs[n]['ind']) for n in seen if mod.defs[n]['ind'])
     ctx.cover['ir_' + '_'.join(flags)] = {'entry_functions': len(entries), 'functions_reached': len(seen), 'functions_in_module': len(mod.defs),
                                            'allocation_sites_reached': sorted(mod.head(x)[:100] for x in sites), 'boundaries_cut': {k: len(v) for k, v in cut.items()},
-                                           'indirect_call_sites_in_reached_set': sum(i for _, i in ind), 'functions_with_indirect_calls': [a for a, _ in ind][:12]}
+                                           'indirect_call_sites_in_reached_set': sum(i for _, i in ind), 'functions_with_indirect_calls': [a[:90] for a, _ in ind][:12]}
     # indirect calls must stay within the expected carriers: awaiter::resume's function pointer and user callables of the driver
-    unexpected = [a for a, _ in ind if not re.search(r'cocls::awaiter::resume|coroutine_handle<.*>::(resume|destroy|operator\(\))|cocls::future<.*>::future<|drv\(|lambda|cocls::trailer|cocls::coro_queue|operator<<|result_of', a)]
-    ctx.ob(rid, 'IR:indirect calls', src, not unexpected, 'indirect call sites in the reached set are the expected carriers (awaiter::resume function pointer, coroutine_handle::resume/destroy = the user\'s coroutine, user callables)',
-           detail={'unexpected': unexpected[:6]}, desc='unexpected indirect call carrier in the core')
+    unexpected = [a for a, _ in ind if not re.search(r'cocls::awaiter::resume|coroutine_handle<.*>::(resume|destroy|operator\(\))|cocls::future<.*>::future<|drv\(|lambda|cocls::trailer|cocls::coro_queue|operator<<|result_of|_details::callback_await_coro<', a)]
+    ctx.ob(rid, 'IR:indirect calls', src, not unexpected, 'indirect call sites in the reached set are the expected carriers (awaiter::resume function pointer, coroutine_handle::resume/destroy = the user\'s coroutine, the symmetric transfer inside the library coroutine callback_await_coro, user callables)',
+           detail={'unexpected': [u[:160] for u in unexpected[:6]]}, desc='unexpected indirect call carrier in the core')
 
 
 def growth_guard(ctx, db):
